@@ -196,6 +196,26 @@ def run(ctx):
         explore(h, text, feats, A.shape(e), aliases, other_pred if (other_pred is not h) else None,
                 abs_e=e if level == 'expression' else None, level=level)
 
+    # a reference spelled once through the event's own alias and once bare, at kinds that sometimes clash: the two
+    # spellings become one reference only when the event rewrites its alias (property entry point)
+    from . import c05
+    for n in range(ctx.share(B['props']) // 4):
+        case = S.random_case(rng, gen.BOOL, maxdepth=rng.randrange(1, 4), n_aliases=0)
+        if not A.renderable(case.e) or case.e[0] == 'lit':
+            continue
+        inj = c05.inject_reuse(rng, case.e, 'M')
+        if inj is None or not A.renderable(inj[0]):
+            continue
+        ptext = A.render_prop(('prop', (), ('scope', 'globally', None, None), ('pat', 'no', ('ev', 'a', 'M', inj[0]), None, None)))
+        feats = A.features(inj[0]) | {'api:parse_property', 'shape:own-alias-spelling'}
+        ctx.begin_case(feats)
+        o = hplapi.outcome(P['property'].parse, ptext)
+        if o[0] != 'ok':
+            ctx.skip('rejected:' + type(o[1]).__name__)
+            continue
+        ctx.count('own_alias_spelling_accepted')
+        explore(o[1], ptext, feats, 'ownalias:' + A.shape(inj[0]), [], None)
+
     pool = []
     for n in range(ctx.share(B['props'])):
         pg = gen.PropGen(rng, maxdepth=rng.randrange(1, 4), max_width=rng.choice((1, 2, 3)), kw_names=0.05)
